@@ -112,6 +112,7 @@ def _site_statements(sp):
         # (without a qualifier - own package, dot import - there is no dot to break after: the plain call, same site id)
         ("pkgo-func-broken-dot", ("_ = %s\n\t@2@Internal()" % q) if q else "_ = Internal()"), ("pkgo-method-broken-dot", "_ = s.\n\t@2@Open()"),
         ("tonl-func-broken-dot", ("_ = %s\n\t@2@Mock()" % q) if q else "_ = Mock()"),
+        ("tonl-promoted-method", "hx# := struct{ *%s }{h}; @@hx#.Reset()" % spl0(sp, "H")), ("tonl-promoted-value-method", "hy# := struct{ %s }{*h}; @@_ = hy#.Fire()" % spl0(sp, "H")),
         ("pkgo-promoted-method", "bx# := struct{ *%s }{s}; @@_ = bx#.Open()" % spl0(sp, "Secret")),
         ("pkgo-promoted-method-value", "by# := struct{ *%s }{s}; @@gy# := by#.Open; _ = gy#" % spl0(sp, "Secret")),
         ("pkgo-func", "_ = %sInternal()" % q), ("pkgo-func-bare", "_ = %sBareOnly()" % q), ("pkgo-func-path", "_ = %sByPath()" % q),
@@ -242,7 +243,7 @@ FKINDS = ["func", "func", "func", "ctorname", "method", "pkgvar", "testonlyfn"]
 
 def spl0(sp, k):
     """the spelling of a type without parentheses (type declarations)"""
-    return {"T": "d.T", "Secret": "d.Secret"}[k] if sp.get("mode") == "paren" else sp[k]
+    return {"T": "d.T", "Secret": "d.Secret", "H": "d.H"}[k] if sp.get("mode") == "paren" else sp[k]
 
 
 def add_user_package(W, rng, dname, pkgname, sp, nfuncs, sid_prefix, test_file=False, nfiles=1, stats=None):
